@@ -5,8 +5,9 @@ seeded/RESULTS.md. Usage: run_seeded.py [name ...]"""
 import glob, json, os, subprocess, sys
 V = os.path.dirname(os.path.abspath(__file__))
 MUT = "/tmp/mut"
-ENV = dict(os.environ, GOFLAGS="-mod=mod", GOPROXY="off", GOSUMDB="off", GOTOOLCHAIN="local", VERIF_REPO=MUT)
-EXTRA = {  # other checks worth trying when the property's own check misses, or known to catch it too
+ENV = dict(os.environ, GOFLAGS="-mod=mod", GOPROXY="off", GOSUMDB="off", GOTOOLCHAIN="local", VERIF_REPO=MUT, VERIF_WORK=os.path.join(V, ".work-sweep"))
+EXTRA = {
+    "C11-c": ["C05"], "C14-c": ["C18"],  # other checks worth trying when the property's own check misses, or known to catch it too
     "C03-b": ["C12"], "C08-a": ["C01", "C13"], "C11-b": ["C06"], "C15-b": ["C12"], "C09-b": ["C07"], "C07-a": ["C09"],
 }
 names = sys.argv[1:] or sorted(os.path.basename(p) for p in glob.glob(V + "/seeded/C*"))
@@ -30,9 +31,12 @@ for n in names:
     for pid in [meta["property"]] + EXTRA.get(n, []):
         p = subprocess.run([V + "/check", pid, "quick"], cwd=V, env=ENV, capture_output=True, text=True)
         msg = ""
-        for line in p.stdout.splitlines():
-            if line.startswith("  ") and not msg:
-                msg = line.strip()[:200]
+        lines = p.stdout.splitlines()
+        for i, line in enumerate(lines):
+            if line.startswith("VIOLATION") and i > 0 and lines[i - 1].startswith("  ") and not msg:
+                msg = lines[i - 1].strip()[:200]
+        if p.returncode == 1 and not msg:
+            msg = "race detector report" if "race-" in p.stdout else "violation"
         res[pid] = {"exit": p.returncode, "first_message": msg}
     subprocess.run("git checkout -q -- . && git clean -fdq", shell=True, cwd=MUT)
     meta["caught_by"] = {"repo_head": head, "tier": "quick", "results": res,
